@@ -142,6 +142,9 @@ func (pe *propertiesEncoder) encodeMap(p *properties.Properties, kids []*Candida
 	for index := 0; index < len(kids); index = index + 2 {
 		key := kids[index]
 		value := kids[index+1]
+		if err := scalarKeyOnly(key, "properties"); err != nil {
+			return err
+		}
 		err := pe.doEncode(p, value, pe.appendPath(path, key.Value), key)
 		if err != nil {
 			return err
